@@ -162,7 +162,8 @@ class C18(object):
                          'embed.with_diagnostic_dump_after_every_country',
                          'embed.with_one_equation_object_given_to_households_of_several_economies',
                          'rename.compared.federation_with_run_time_built_currency_strings',
-                         'embed.with_one_economys_government_coded_like_the_others_household')
+                         'embed.with_one_economys_government_coded_like_the_others_household',
+                         'embed.with_other_models_created_while_the_joint_model_is_assembled')
 
     def n_cases(self, tier):
         return 24 if tier == 'quick' else 600
@@ -281,6 +282,10 @@ class C18(object):
                   'log_info_after_every_country': bool(case.get('federation_behind_unused_ext'))}
         if extras['log_info_after_every_country']:
             rec.count('embed.with_diagnostic_dump_after_every_country')
+        if case.get('federation_behind_unused_ext') or case.get('cap_next_to_retained_profits'):
+            # the joint model is assembled economy by economy while other Model objects (and a small second model) come and go
+            extras['interleave_model'] = True
+            rec.count('embed.with_other_models_created_while_the_joint_model_is_assembled')
         if extras['dup_country_attempts']:
             rec.count('embed.with_refused_duplicate_country_attempts')
         if extras['query_zone']:
